@@ -408,6 +408,29 @@ def envdep(fn):
     return out
 
 
+def stripset(fn):
+    """STRIPSET: x.strip / lstrip / rstrip(S) with a constant S of two or more characters that reads as a prefix / suffix rather than
+    as a set of characters: a character occurs twice in it, or it mixes digits with other visible characters ('.0', '0:',
+    'T00:00:00.000Z').  str.strip takes a character SET: rstrip('.0') also eats the zeros of '40.0' -> '4'."""
+    out = []
+    for n in ast.walk(fn):
+        if isinstance(n, ast.Call) and isinstance(n.func, ast.Attribute) and n.func.attr in ('strip', 'lstrip', 'rstrip') \
+                and len(n.args) == 1 and not n.keywords and isinstance(n.args[0], ast.Constant) and isinstance(n.args[0].value, str):
+            S = n.args[0].value
+            if len(S) < 2:
+                continue
+            repeated = len(set(S)) < len(S)
+            digits = [c for c in S if c.isdigit()]
+            others = [c for c in S if not c.isdigit() and not c.isspace()]
+            if repeated or (digits and others):
+                out.append(('STRIPSET', n.lineno,
+                            '`%s`: the argument of %s is a SET of characters, not a %s: every trailing/leading run of the characters %s is removed '
+                            '(e.g. %r loses more than the affix)' % (unparse(n)[:70], n.func.attr, 'suffix' if n.func.attr == 'rstrip' else 'prefix',
+                                                                   sorted(set(S)), ('4' + S if n.func.attr != 'rstrip' else '40' + S[-2:] if len(S) > 1 else S)),
+                            '%s(%r)' % (n.func.attr, S)))
+    return out
+
+
 def scan(repo, scope):
     """[(rel, qualname or '<module>', rule, lineno, message, key)] over the functions of `scope` and the module level of their files"""
     out = []
@@ -432,7 +455,7 @@ def scan(repo, scope):
         fns = [(q, mod.functions[q]) for q in sorted(qs) if q in mod.functions]
         for q, fn in fns:
             n_fn += 1
-            for rule, line, msg, key in idx0(fn) + stale(fn) + unitguess(fn) + typeerase(fn, fn_index) + argswap(fn, fn_index, method_index) + mutdef(fn) + findspan(fn) + envdep(fn):
+            for rule, line, msg, key in idx0(fn) + stale(fn) + unitguess(fn) + typeerase(fn, fn_index) + argswap(fn, fn_index, method_index) + mutdef(fn) + findspan(fn) + envdep(fn) + stripset(fn):
                 out.append((rel, q, rule, line, msg, key))
         for q, rule, line, msg, key in oneshot(mod, fns):
             out.append((rel, q, rule, line, msg, key))
